@@ -220,6 +220,20 @@ pub fn gen_case(seed: u64, k: u64) -> Case {
         2 => "[build]\nentry = \"main.asm\"\noutput-format = \"prg\"\nlisting = true\n".into(),
         _ => "[build]\nentry = \"main.asm\"\nlisting = true\nsymbols = [\"vice\"]\n".into(),
     };
+    // one project in six carries formatting / listing options, half of them at the edges of their ranges
+    if !project.toml.is_empty() && rng.chance(1, 6) {
+        let extra = *rng.pick(&[
+            "\n[formatting]\nlisting.num-bytes-per-line = 0\n",
+            "\n[formatting]\nlisting.num-bytes-per-line = 1\n",
+            "\n[formatting]\nlisting.num-bytes-per-line = 100000\n",
+            "\n[formatting]\nwhitespace.label-margin = 100000\n",
+            "\n[formatting]\nwhitespace.label-margin = 0\nwhitespace.code-margin = 0\nwhitespace.indent = 0\n",
+            "\n[formatting]\nwhitespace.code-margin = 100000\nwhitespace.indent = 100000\n",
+            "\n[formatting]\nwhitespace.label-alignment = \"left\"\nbraces.position = \"new-line\"\nmnemonics.casing = \"uppercase\"\nmnemonics.register-casing = \"uppercase\"\n",
+            "\n[formatting]\nwhitespace.indent = 2\nwhitespace.label-margin = 8\nwhitespace.code-margin = 12\n",
+        ]);
+        project.toml.push_str(extra);
+    }
     // fault plan
     let mut faults = vec![];
     let n_faults = match rng.below(10) {
@@ -273,6 +287,12 @@ pub fn gen_case(seed: u64, k: u64) -> Case {
         let t = rng.pick(&targets).clone();
         let path = disk::normalize(&Path::new(WS).join(&t));
         faults.push(Fault { path, nth: *rng.pick(&[0u32, 1]), op: Op::Write, kind: if rng.chance(1, 2) { FaultKind::PermissionDenied } else { FaultKind::NoSpace } });
+    }
+    if pipeline == "format" && rng.chance(1, 6) {
+        // ... or they can be opened, but the disk fills up while the new contents are written
+        let t = rng.pick(&targets).clone();
+        let path = disk::normalize(&Path::new(WS).join(&t));
+        faults.push(Fault { path, nth: *rng.pick(&[0u32, 1]), op: Op::WriteData, kind: if rng.chance(1, 2) { FaultKind::NoSpace } else { FaultKind::IoError } });
     }
     Case {
         project,
@@ -737,7 +757,38 @@ fn execute_inner(c: &Case, root: &Path, paths: &BTreeSet<PathBuf>, stats: &mut R
             }
         }
         _ => {
+            // The formatter rewrites the user's sources in place. Whatever happens - success, a diagnostic, an I/O
+            // error half-way, a panic - no source file may end up with less in it than before: formatting moves
+            // white space and changes letter case, it never removes a character. (Only when no planned fault
+            // alters what a read returns, so that "before" is what the formatter saw.)
+            let content_faults = c.faults.iter().any(|f| matches!(f.kind, FaultKind::Truncate(_) | FaultKind::Replace(_)));
+            let ink = |b: &[u8]| b.iter().filter(|c| !c.is_ascii_whitespace()).count();
+            let before: Vec<(PathBuf, usize)> = disk::with(|d| d.files.iter().filter(|(p, _)| p.extension().map(|e| e == "asm").unwrap_or(false)).map(|(p, b)| (p.clone(), ink(b))).collect()).unwrap_or_default();
             let r = std::panic::catch_unwind(std::panic::AssertUnwindSafe(|| format_command(&cfg)));
+            let outcome = match &r {
+                Err(_) => "a panic",
+                Ok(Ok(())) => "success",
+                Ok(Err(_)) => "an error",
+            };
+            if !content_faults {
+                for (p, n) in &before {
+                    stats.labels_checked += 1;
+                    let after = disk::with(|d| d.files.get(p).map(|b| ink(b))).flatten();
+                    if after.map(|a| a < *n).unwrap_or(true) {
+                        return Some(Found {
+                            class: "source_destroyed".into(),
+                            sig: "format:source_destroyed".into(),
+                            message: format!(
+                                "pipeline format ended with {} and left {} with {} of its {} non-blank characters",
+                                outcome,
+                                p.display(),
+                                after.map(|a| a.to_string()).unwrap_or_else(|| "none (file gone)".into()),
+                                n
+                            ),
+                        });
+                    }
+                }
+            }
             match r {
                 Err(_) => Some(panic_found("format", "format_command")),
                 Ok(Ok(())) => {
